@@ -33,6 +33,16 @@ Dims_2c == PNone(1..2, 1..2, BOOLEAN) \cup PDefault({0, 3}, {2}, {FALSE}) \cup P
 Dims_2d == PNone(1..2, {2}, BOOLEAN) \cup PDefault({0}, {1}, {FALSE}) \cup PDefault({3}, {3}, {TRUE}) \cup PFull({2}, {3}, {TRUE}, {1})
 Dims_tiny == PDefault(1..2, 2..3, BOOLEAN) \cup {D(2, 2, TRUE, "none", <<>>, 0), D(0, 3, FALSE, "none", <<>>, -1), D(3, 1, TRUE, "none", <<>>, -1)}
 Dims_sim == PFull(1..3, 1..4, BOOLEAN, {1}) \cup PNone(0..3, 1..4, BOOLEAN) \cup PCoarse(1..2, {2, 4}, BOOLEAN, {-1, 0})
+\* directed family "periodic seam": periodic one-dimensional splines of high degree in which at least two knots are wrapped
+\* around the seam (p - m[0] >= 2) while knots are repeated: continuity argument 1..p-1 on 3..5 elements and explicit
+\* multiplicity vectors with a repeated knot just before / at / after the seam; also the one-element periodic splines.
+\* The model (Spline1D) gives the continuity order at every interface including the seam (key <<0>>).
+PSeam(P, N) == UNION {UNION {{D(p, n, TRUE, "none", <<>>, k) : k \in 1..p-1} : n \in N} : p \in P}
+Dims_seam4 == PSeam({4}, 3..5) \cup PSeam({4}, {1, 2})
+              \cup {D(3, 4, TRUE, "full", <<1, 1, 1, 2, 1>>, -1), D(4, 4, TRUE, "full", <<2, 1, 1, 2, 2>>, -1), D(4, 3, TRUE, "full", <<1, 2, 3, 1>>, -1),
+                    D(4, 5, TRUE, "full", <<1, 1, 2, 1, 3, 1>>, -1), D(4, 3, TRUE, "full", <<2, 3, 1, 2>>, -1), D(3, 3, TRUE, "full", <<1, 2, 2, 1>>, -1)}
+Dims_seam5 == Dims_seam4 \cup PSeam({5}, 1..5) \cup PSeam({6}, {1, 3})
+              \cup {D(5, 4, TRUE, "full", <<2, 1, 3, 2, 2>>, -1), D(5, 3, TRUE, "full", <<1, 4, 2, 1>>, -1), D(5, 5, TRUE, "full", <<3, 1, 1, 2, 2, 3>>, -1)}
 Dims_mut == PFull({2}, {2, 3}, BOOLEAN, {1}) \cup PNone({2}, {2}, BOOLEAN)
 
 Rem_1 == {<<>>, <<0>>, <<-1>>, <<0, -1>>, <<1>>}
